@@ -2,6 +2,7 @@
 import Props.C01
 import Props.C01_attrs
 import Props.C01_ext
+import Props.C01_options
 import Props.C01_spelling
 #print axioms SpyneModel.Props.C01.nil_true_is_nil
 #print axioms SpyneModel.Props.C01.nil_false_carries_value
@@ -38,6 +39,12 @@ import Props.C01_spelling
 #print axioms SpyneModel.Props.C01ext.multiple_returns_in_order
 #print axioms SpyneModel.Props.C01ext.client_packs_every_keyword
 #print axioms SpyneModel.Props.C01ext.client_call_fidelity
+#print axioms SpyneModel.Props.C01options.sent_value_beats_default
+#print axioms SpyneModel.Props.C01options.absent_or_nil_takes_the_default
+#print axioms SpyneModel.Props.C01options.nil_stays_none_without_the_option
+#print axioms SpyneModel.Props.C01options.no_default_no_change
+#print axioms SpyneModel.Props.C01options.href_stands_for_the_referenced_content
+#print axioms SpyneModel.Props.C01options.no_href_no_change
 #print axioms SpyneModel.Props.C01spelling.server_sees_denoted_tree
 #print axioms SpyneModel.Props.C01spelling.decode_of_any_spelling
 #print axioms SpyneModel.Props.C01spelling.same_denotation_same_outcome
